@@ -60,8 +60,19 @@ def run(ctx):
     core.lean_phase(ctx)
     rng = ctx.rng
     reqs, metas = [], []
+
+    def flush():
+        outs = ctx.driver.run(reqs) if reqs else []
+        for req, (op, replay, exp), out in zip(reqs, metas, outs):
+            ctx.count("model_requests")
+            if out.get("ok", out) != exp:
+                ctx.mismatch(op, replay, exp, out)
+        del reqs[:], metas[:]
+
     fam = schemas.family()
     for si in range(ctx.budget(24, 60)):
+        if len(reqs) >= 15000:
+            flush()     # keep memory bounded in long runs
         info = fam[si % len(fam)] if si < len(fam) or rng.random() < 0.4 else schemas.random_schema(rng)
         schema = info.schema
         ctx.driver.add_schema(info)
@@ -93,11 +104,7 @@ def run(ctx):
             if maps != exp or tr.mapping.from_ != 0 or tr.mapping.to != len(tr.steps):
                 ctx.violation("transform-mapping", "Transform.mapping is not the list of the recorded steps' maps",
                               {"schema": info.name, "doc": d.to_json(), "steps": [s.to_json() for s in tr.steps], "maps": maps})
-    outs = ctx.driver.run(reqs) if reqs else []
-    for req, (op, replay, exp), out in zip(reqs, metas, outs):
-        ctx.count("model_requests")
-        if out.get("ok", out) != exp:
-            ctx.mismatch(op, replay, exp, out)
+    flush()
     return ctx.finish(
         rule="a case is (schema, document, successfully applied step) where the step is a random primitive step or one emitted "
              "by a random high-level Transform operation (origin counted per operation); all old positions are checked; distinct by content")
